@@ -32,6 +32,7 @@ type e3Sub struct {
 	Skip     string   `json:"skip,omitempty"`
 	Calls    []e3Call `json:"calls"`
 	Parallel bool     `json:"parallel,omitempty"`
+	Subs     []e3Sub  `json:"subs,omitempty"`
 }
 
 type e3Test struct {
